@@ -19,7 +19,7 @@ use crate::{
 pub struct Scn {
     pub tmp: TempDir,
     pub jobs: Vec<(String, Job)>,
-    pub check: Box<dyn FnOnce() -> Result<(), String>>,
+    pub check: Box<dyn FnOnce(&[sched::PunchRec]) -> Result<(), String>>,
 }
 
 type Obs = Arc<Mutex<Vec<String>>>;
@@ -171,7 +171,7 @@ where
             }
         }
     });
-    let check = Box::new(move || {
+    let check = Box::new(move |_punches: &[sched::PunchRec]| {
         let o = obs.lock().unwrap();
         let _keep = &db;
         if let Some(first) = o.first() { Err(first.clone()) } else { Ok(()) }
@@ -339,11 +339,13 @@ fn raw_op(w: &mut World, op: &str, slot: usize) -> Option<Job> {
                     vecdb::verif::set_mmap_crossover_bytes(0);
                 }
                 let len = ro.len();
+                // the scan back-end (mmap / file IO) is chosen by the fold paths
+                let n = ro.fold_range_at(0, len, 0usize, |n, _| n + 1);
                 let got = ro.collect_range_at(0, len);
                 if io {
                     vecdb::verif::reset_knobs();
                 }
-                let _ = got;
+                let _ = (n, got);
             })
         }
         "raw_vec_write" => {
@@ -374,7 +376,7 @@ fn c11_build(ops: &[&str]) -> Option<Scn> {
         jobs.push((format!("{op}#{k}"), raw_op(&mut w, op, k)?));
     }
     let db = w.db.clone();
-    let check = Box::new(move || check_layout(&db).map(|_| ()).map_err(|e| format!("extent invariant broken at quiescence: {e}")));
+    let check = Box::new(move |_: &[sched::PunchRec]| check_layout(&db).map(|_| ()).map_err(|e| format!("extent invariant broken at quiescence: {e}")));
     Some(Scn { tmp, jobs, check })
 }
 
@@ -427,7 +429,7 @@ fn c10_build(kind: &str) -> Option<Scn> {
                 ));
             }
             let db = w.db.clone();
-            let check = Box::new(move || {
+            let check = Box::new(move |_punches: &[sched::PunchRec]| {
                 check_layout(&db).map_err(|e| format!("extent invariant broken at quiescence: {e}"))?;
                 for (n, m) in expected.lock().unwrap().iter() {
                     let r = db.get_region(n).ok_or(format!("region {n} disappeared"))?;
@@ -471,7 +473,7 @@ fn c10_build(kind: &str) -> Option<Scn> {
                 ));
             }
             let db2 = db.clone();
-            let check = Box::new(move || check_layout(&db2).map(|_| ()).map_err(|e| format!("extent invariant broken at quiescence: {e}")));
+            let check = Box::new(move |_: &[sched::PunchRec]| check_layout(&db2).map(|_| ()).map_err(|e| format!("extent invariant broken at quiescence: {e}")));
             Some(Scn { tmp, jobs, check })
         }
         // a reader held across relocation + flush + reuse of the old extent
@@ -510,7 +512,7 @@ fn c10_build(kind: &str) -> Option<Scn> {
                 let c = db2.create_region_if_needed("c").unwrap(); // may land in the old extent
                 c.write(&payload(9, 3000)).unwrap();
             });
-            let check = Box::new(move || {
+            let check = Box::new(move |_punches: &[sched::PunchRec]| {
                 let _keep = &db;
                 let o = obs.lock().unwrap();
                 if let Some(f) = o.first() { Err(f.clone()) } else { Ok(()) }
@@ -555,10 +557,19 @@ fn c12_build(kind: &str) -> Option<Scn> {
         db2.compact().unwrap();
     });
     let others: Vec<(String, Vec<u8>)> = ["a", "b", "c", "d", "e", "last"].iter().filter(|n| **n != region).map(|n| (n.to_string(), db.get_region(n).unwrap().create_reader().read_all().to_vec())).collect();
-    let check = Box::new(move || {
+    let check = Box::new(move |_punches: &[sched::PunchRec]| {
         let got = r.create_reader().read_all().to_vec();
         if got != expect {
             let at = got.iter().zip(&expect).position(|(a, b)| a != b).unwrap_or(got.len().min(expect.len()));
+            // which punch zeroed it, and where was the writer then? The listed finding is the window
+            // "bytes copied, length not yet published"; a punch after the writer has finished (or
+            // before it copied) is something else
+            let abs = r.meta().start() + at;
+            let culprit = _punches.iter().rev().find(|p| p.off <= abs && abs < p.off + p.len); // the last one: nothing rewrote the bytes after it
+            let writer_state = culprit.and_then(|p| p.threads.iter().find(|t| t.0 == "writer").map(|t| t.1.clone())).unwrap_or_else(|| "no-punch-covers-it".into());
+            // "unpublished": the writer had not yet taken the metadata write lock that publishes
+            // its new length when the punch happened - the window of the listed finding
+            let class = if writer_state.starts_with("unpublished") { class.to_string() } else { format!("bytes-lost-while-writer-{writer_state}") };
             return Err(format!("{}:: after compact() raced with an append into the reserve, region {region} has {} bytes (expected {}), first difference at offset {at}: {:?} vs {:?}", class, got.len(), expect.len(), got.get(at), expect.get(at)));
         }
         for (n, bytes) in &others {
@@ -641,7 +652,7 @@ fn one_run(key: &str, policy: Policy, ex: &mut Explored) -> Option<Vec<Step>> {
                 ex.failures.push((format!("panic|{t0}|{}", normalize_msg(p)), format!("thread {t} panicked: {p}"), chosen.clone()));
                 ex.outcomes.insert("panic".into());
             } else {
-                match check() {
+                match check(&res.punches) {
                     Ok(()) => {
                         ex.outcomes.insert("ok".into());
                     }
@@ -687,23 +698,32 @@ pub fn explore(key: &str, mode: Mode, deadline: f64, ctx: &Ctx) -> Explored {
     match mode {
         Mode::Mixed { .. } => unreachable!(),
         Mode::Dfs { max_preempt, max_runs } => {
-            let mut prefix: Vec<usize> = vec![];
-            loop {
-                let Some(steps) = one_run(key, Policy::Prefix(prefix.clone()), &mut ex) else { break };
-                if !ex.stuck.is_empty() {
-                    break;
-                }
-                match sched::next_prefix(&steps, max_preempt) {
-                    None => {
-                        ex.exhaustive = true;
-                        break;
+            // iterative deepening on the pre-emption bound, from both ends of the tree: all
+            // schedules with few pre-emptions are covered before the run cap is reached
+            let start_runs = ex.runs as usize;
+            let mut finished_all = true;
+            'outer: for bound in 0..=max_preempt {
+                for high in [false, true] {
+                    let mut prefix: Vec<usize> = vec![];
+                    loop {
+                        let policy = if high { Policy::PrefixHigh(prefix.clone()) } else { Policy::Prefix(prefix.clone()) };
+                        let Some(steps) = one_run(key, policy, &mut ex) else { break 'outer };
+                        if !ex.stuck.is_empty() {
+                            finished_all = false;
+                            break 'outer;
+                        }
+                        match sched::next_prefix_dir(&steps, bound, high) {
+                            None => break,
+                            Some(p) => prefix = p,
+                        }
+                        if ex.runs as usize - start_runs >= max_runs || ctx.elapsed() > deadline {
+                            finished_all = false;
+                            break 'outer;
+                        }
                     }
-                    Some(p) => prefix = p,
-                }
-                if ex.runs as usize >= max_runs || ctx.elapsed() > deadline {
-                    break;
                 }
             }
+            ex.exhaustive = finished_all;
         }
         Mode::Guided(plans) => {
             for plan in plans {
@@ -787,7 +807,9 @@ impl Agg {
             self.samples.push(json!({"scenario": key, "schedules_run": ex.runs, "distinct": ex.schedules.len(), "exhaustive": ex.exhaustive, "longest_schedule_steps": ex.max_steps, "outcomes": ex.outcomes}));
         }
         let scen_class = key.split('|').take(3).collect::<Vec<_>>().join("|");
-        for (sig, what, schedule) in ex.failures.iter().take(3) {
+        // one report per distinct signature (a listed finding must not hide another failure)
+        let mut seen_sigs = BTreeSet::new();
+        for (sig, what, schedule) in ex.failures.iter().filter(|f| seen_sigs.insert(f.0.clone())).take(6) {
             report.note_failure();
             report.violation(ctx, Violation { sig: format!("{prop}|{scen_class}|{sig}"), what: format!("[{key}] {what}"), detail: json!({"scenario": key, "schedule": schedule, "mismatch": what}) });
         }
